@@ -2,6 +2,7 @@
 """Developer helper: assemble and verify one unit, print a summary.  usage: run_unit.py <unit> [repo]"""
 import importlib.util, json, os, sys, tempfile
 sys.path.insert(0, os.path.dirname(os.path.abspath(__file__)))
+sys.path.insert(0, os.path.join(os.path.dirname(os.path.dirname(os.path.abspath(__file__))), "units"))
 import verus_unit
 
 def load_unit(name):
